@@ -141,7 +141,14 @@ func (w *World) observeBreaker(pol int) {
 		}
 		rem = br.RemainingDelay()
 		mm := br.Metrics()
-		m = [5]uint{mm.Executions(), mm.Failures(), mm.Successes(), mm.FailureRate(), mm.SuccessRate()}
+		// every accessor answers for the present instant, whichever is asked first: the order rotates with the clock
+		// reading so that each one gets to be the first read after an idle gap
+		get := [5]func() uint{mm.Executions, mm.Failures, mm.Successes, mm.FailureRate, mm.SuccessRate}
+		first := int(uint64(time.Now().UnixNano()/1000+int64(rem)) % 5)
+		for k := 0; k < 5; k++ {
+			i := (first + k) % 5
+			m[i] = get[i]()
+		}
 	})
 	w.log.add(Event{Kind: EvStandalone, Str: "br.observe", Pos: pol, A: int64(st), B: int64(rem), L: 1, Exec: -2,
 		Attempts: int(m[0]), Executions: int(m[1]), Retries: int(m[2]), Hedges: int(m[3]), Aux: []int{int(m[4]), map[bool]int{false: 0, true: 1}[predMismatch]}})
